@@ -1,8 +1,8 @@
 SPECIFICATION Spec
 CONSTANTS
   Leaves <- LvTyped
-  ULeaves = {0, 2}
-  Bigs = {"2147483648", "4294967295u"}
+  ULeaves = {0, 1, 2, 2147483647}
+  Bigs = {"2147483648", "4294967295u", "0x80000000", "0xffffffff", "2147483648u"}
   UnOps = {"-", "~", "!"}
   Casts = {"int"}
   BinOps = {"*", "/", "%", "+", "-", "<<", ">>", "<", ">", "<=", ">=", "==", "!=", "&", "^", "|", "&&", "||"}
